@@ -57,9 +57,10 @@ def preseed(case):
     if case["kind"] == "spend" and case["wit"]:
         ops = sorted(set(ops) | {168, 169})
     have = {(e[0], bytes(e[1])) for e in case["hashes"]}
+    wits = {bytes(w) for w in case["wit"]}
     for op in ops:
         for d in items:
-            if len(d) <= 10000 and (op, d) not in have:
+            if (len(d) <= 600 or (op == 168 and d in wits)) and (op, d) not in have:
                 have.add((op, d))
                 case["hashes"].append([op, list(d), list(S.hash_oracle(op, d))])
 
@@ -76,20 +77,26 @@ def spec_run(ctx, cases, sig_oracle, workers=16, max_rounds=8, label=""):
     for rnd in range(max_rounds):
         if not todo:
             break
-        fd, path = tempfile.mkstemp(prefix="vf-c03-cases-", suffix=".json")
-        with os.fdopen(fd, "w") as f:
-            json.dump([cases[i] for i in todo], f)
-        try:
-            r = ctx.tlc("MC_ScriptRun", "MC_ScriptRun", workers=workers, env={"CASES_FILE": path}, timeout=3000)
-        finally:
-            os.unlink(path)
+        # TLC reads the cases from one JSON file: keep each file moderate (big batches deserialise slowly)
         got = {}
-        for rec in r.records:
-            if rec.get("k") == "res":
-                got[rec["id"]] = rec
-        if len(got) != len(todo):
-            raise MachineryError("MC_ScriptRun %s: %d cases in, %d verdicts out; tail=%s" % (
-                label, len(todo), len(got), r.raw_tail[-8:]))
+        CH = 2500
+        for lo in range(0, len(todo), CH):
+            part = todo[lo:lo + CH]
+            fd, path = tempfile.mkstemp(prefix="vf-c03-cases-", suffix=".json")
+            with os.fdopen(fd, "w") as f:
+                json.dump([cases[i] for i in part], f)
+            try:
+                r = ctx.tlc("MC_ScriptRun", "MC_ScriptRun", workers=workers, env={"CASES_FILE": path}, timeout=3000)
+            finally:
+                os.unlink(path)
+            n = 0
+            for rec in r.records:
+                if rec.get("k") == "res":
+                    got[lo + rec["id"]] = rec
+                    n += 1
+            if n != len(part):
+                raise MachineryError("MC_ScriptRun %s: %d cases in, %d verdicts out; tail=%s" % (
+                    label, len(part), n, r.raw_tail[-8:]))
         nxt = []
         for j, i in enumerate(todo, 1):
             rec = got[j]
